@@ -319,8 +319,13 @@ def classify(mod, failures, known):
     matchers = getattr(mod, 'KNOWN_MATCHERS', {})
     known_hits = collections.OrderedDict()
     new = []
+    # findings for which the MODEL deliberately does not follow the code (it gives the result the property demands, e.g. where the
+    # code hits a resource limit): on an input whose oracle failures are all of these, model and implementation differ by design
+    differs = set(getattr(mod, 'KNOWN_MODEL_DIFFERS', ()))
+    EXPLAINED.clear()
     for case, io, mo, fails in failures:
         rest = []
+        hits = set()
         for f in fails:
             hit = None
             for kid in listed:
@@ -330,11 +335,17 @@ def classify(mod, failures, known):
                     break
             if hit:
                 known_hits.setdefault(hit, (case, io, f))
+                hits.add(hit)
             else:
                 rest.append(f)
         if rest:
             new.append((case, io, mo, rest))
+        elif hits and hits <= differs:
+            EXPLAINED.add(canon(case))
     return known_hits, new
+
+
+EXPLAINED = set()
 
 
 def verdict(mod, tier, seed, cases, result, replay_mode=False):
@@ -386,7 +397,7 @@ def verdict(mod, tier, seed, cases, result, replay_mode=False):
     else:
         # no new oracle failure: every disagreement between model and implementation is unexplained -- also one on an input
         # that hits a recorded finding (the model follows the code there too)
-        unexplained = list(disagreements)
+        unexplained = [d for d in disagreements if canon(d[0]) not in EXPLAINED]
         if unexplained or proof_problems:
             payload = {'property': mod.ID, 'kind': 'no-failing-input-found', 'proof_problems': proof_problems,
                        'broken': proof_problems + (['correspondence op=%s: implementation and model differ' % unexplained[0][0].get('op')] if unexplained else []),
